@@ -3,7 +3,7 @@
     [AttInv s]   every attempt row belongs to a job of a committed update (attempts are created by schedule / creating /
                  started / complete messages, which Legal.v restricts to committed jobs): holds after every good history;
     [Sim s]      "phase 2" — update U of batch B exists, is open and is the last update of B, every other update of B is
-                 committed, the groups of B with id >= G0 are U's, and the other jobs of B sit in groups below G0. *)
+                 committed, and the other jobs of B sit in groups below G0. *)
 From HailV Require Import Common.Prelude BatchDB.Model BatchDB.Tables BatchDB.CMap BatchDB.JobsWF BatchDB.StepCore
   BatchDB.Legal BatchDB.DepsDef BatchDB.DepsStruct BatchDB.DepsAux BatchDB.Deps BatchDB.Pick BatchDB.Cores BatchDB.Attempts
   BatchDB.StepFrame BatchDB.NonInterfDef.
@@ -93,31 +93,30 @@ Lemma step_akeys s o :
   akeys (fst (step s o)) = akeys s \/
   exists k, op_att o = Some k /\ akeys (fst (step s o)) = akeys s ++ [k].
 Proof.
-  destruct o; cbn [step op_att].
-  - left. unfold do_create_batch. att.
-  - left. unfold do_create_update. att.
-  - left. unfold do_create_groups. repeat dmatch; try apply asame_refl; cbn [fst].
-    match goal with H : fold_left _ _ _ = Some _ |- _ => revert H end.
-    match goal with |- fold_left _ ?l (Some ?st) = Some ?st' -> _ => generalize st, st'; induction l as [|g l IH]; intros s0 s0' end.
-    + cbn. intros H; injection H as <-. reflexivity.
-    + cbn [fold_left]. destruct (create_one_group b u (u_start_group u0) (Some s0) g) as [s1|] eqn:E1; [|rewrite cog_fold_none; discriminate].
-      intros H. specialize (IH _ _ H). unfold asame in *. rewrite IH.
-      unfold create_one_group in E1. repeat dmatch; try discriminate. injection E1 as <-. reflexivity.
-  - left. destruct (do_create_jobs_shape s b u user js) as [E | (up & bt & _ & _ & _ & _ & E)]; rewrite E; [reflexivity|].
+  assert (L : asame s (fst (step s o)) -> akeys (fst (step s o)) = akeys s \/
+              exists k, op_att o = Some k /\ akeys (fst (step s o)) = akeys s ++ [k]) by (intros H; left; exact H).
+  destruct o; cbn [step op_att] in *.
+  - apply L; clear L. unfold do_create_batch. att.
+  - apply L; clear L. unfold do_create_update. att.
+  - apply L; clear L.
+    destruct (do_create_groups_shape s b u user gs) as [[E _] | (up & _ & F & _ & _)]; [rewrite E; apply asame_refl|].
+    eapply (cog_fold_rel asame); [apply asame_refl | apply asame_trans | | exact F].
+    intros st g st' C. apply create_one_group_some in C. cbv zeta in C. destruct C as (_ & _ & _ & ->). reflexivity.
+  - apply L; clear L. destruct (do_create_jobs_shape s b u user js) as [E | (up & bt & _ & _ & _ & _ & E)]; rewrite E; [reflexivity|].
     unfold cj_insert. change (asame s (fold_left stage_job (map fst (cj_specs b u up js))
       (s <| jobs ::= fun l => l ++ map fst (cj_specs b u up js) |>
          <| parents ::= fun l => l ++ flat_map (fun jp => map (fun p => (b, j_id (fst jp), p)) (snd jp)) (cj_specs b u up js) |>))).
     apply (asame_trans _ (s <| jobs ::= fun l => l ++ map fst (cj_specs b u up js) |>
          <| parents ::= fun l => l ++ flat_map (fun jp => map (fun p => (b, j_id (fst jp), p)) (snd jp)) (cj_specs b u up js) |>)); [reflexivity|].
     apply asame_fold. intros st x. reflexivity.
-  - left. unfold do_commit, do_commit_proc. att.
-  - left. unfold do_cancel_group. att.
-  - left. unfold do_delete_batch. att.
-  - left. unfold do_new_instance. att.
-  - left. unfold do_activate. att.
-  - left. unfold do_deactivate. att.
-  - left. unfold do_mark_deleted. att.
-  - unfold do_schedule. destruct (find_job s b j) as [x|]; [|left; reflexivity].
+  - apply L; clear L. unfold do_commit, do_commit_proc. att.
+  - apply L; clear L. unfold do_cancel_group. att.
+  - apply L; clear L. unfold do_delete_batch. att.
+  - apply L; clear L. unfold do_new_instance. att.
+  - apply L; clear L. unfold do_activate. att.
+  - apply L; clear L. unfold do_deactivate. att.
+  - apply L; clear L. unfold do_mark_deleted. att.
+  - clear L. unfold do_schedule. destruct (find_job s b j) as [x|]; [|left; reflexivity].
     destruct (is_job_cancelled s x) as [c|]; [|left; reflexivity].
     destruct (add_attempt s b j att inst (j_cores x)) as [[s1 d0]|] eqn:Aa; [|left; reflexivity].
     assert (E : akeys (fst (if (jstate_eqb (j_state x) Ready || jstate_eqb (j_state x) Creating) && negb c && is_state (inst_state s1 inst) IActive
@@ -125,26 +124,26 @@ Proof.
                 else (s1, ok [1; if match find_inst s inst with Some y => i_pool y | None => false end then (if d0 =? 0 then j_cores x else 0) else d0]))) = akeys s1).
     { destruct (_ && _); cbn [fst]; [apply asame_update_job | reflexivity]. }
     cbv zeta. rewrite E. destruct (add_attempt_akeys _ _ _ _ _ _ _ _ Aa) as [-> | ->]; [left; reflexivity | right; eauto].
-  - left. unfold do_unschedule. att.
-  - unfold do_mark_creating_or_started. destruct (find_job s b j) as [x|]; [|left; reflexivity].
+  - apply L; clear L. unfold do_unschedule. att.
+  - clear L. unfold do_mark_creating_or_started. destruct (find_job s b j) as [x|]; [|left; reflexivity].
     destruct (is_job_cancelled s x) as [c|]; [|left; reflexivity].
     destruct (add_attempt s b j att inst (j_cores x)) as [[s1 d0]|] eqn:Aa; [|left; reflexivity].
     cbv zeta.
     match goal with |- akeys (fst (if ?c then _ else _)) = _ \/ _ =>
-      assert (E : forall cc, akeys (fst (if cc then (update_job (set_times s1 b j att time) x (x <| j_state := Creating |> <| j_attempt := Some att |>), ok [0; d0])
+      assert (E : forall cc : bool, akeys (fst (if cc then (update_job (set_times s1 b j att time) x (x <| j_state := Creating |> <| j_attempt := Some att |>), ok [0; d0])
                                             else (set_times s1 b j att time, ok [0; d0]))) = akeys s1) end.
     { intros cc. destruct cc; cbn [fst]; [eapply asame_trans; [apply asame_set_times | apply asame_update_job] | apply asame_set_times]. }
     rewrite E. destruct (add_attempt_akeys _ _ _ _ _ _ _ _ Aa) as [-> | ->]; [left; reflexivity | right; eauto].
-  - unfold do_mark_creating_or_started. destruct (find_job s b j) as [x|]; [|left; reflexivity].
+  - clear L. unfold do_mark_creating_or_started. destruct (find_job s b j) as [x|]; [|left; reflexivity].
     destruct (is_job_cancelled s x) as [c|]; [|left; reflexivity].
     destruct (add_attempt s b j att inst (j_cores x)) as [[s1 d0]|] eqn:Aa; [|left; reflexivity].
     cbv zeta.
     match goal with |- akeys (fst (if ?c then _ else _)) = _ \/ _ =>
-      assert (E : forall cc, akeys (fst (if cc then (update_job (set_times s1 b j att time) x (x <| j_state := Running |> <| j_attempt := Some att |>), ok [0; d0])
+      assert (E : forall cc : bool, akeys (fst (if cc then (update_job (set_times s1 b j att time) x (x <| j_state := Running |> <| j_attempt := Some att |>), ok [0; d0])
                                             else (set_times s1 b j att time, ok [0; d0]))) = akeys s1) end.
     { intros cc. destruct cc; cbn [fst]; [eapply asame_trans; [apply asame_set_times | apply asame_update_job] | apply asame_set_times]. }
     rewrite E. destruct (add_attempt_akeys _ _ _ _ _ _ _ _ Aa) as [-> | ->]; [left; reflexivity | right; eauto].
-  - rewrite do_mark_complete_unfold. destruct (find_job s b j) as [x|]; [|left; reflexivity].
+  - clear L. rewrite do_mark_complete_unfold. destruct (find_job s b j) as [x|]; [|left; reflexivity].
     destruct (if att =? -1 then Some (s, 0) else add_attempt s b j att inst (j_cores x)) as [[s1 d0]|] eqn:Aa; [|left; reflexivity].
     cbv zeta.
     assert (E : akeys (if mc_stale x att then mc_s3 s1 x b j att inst start endt reason
@@ -156,12 +155,12 @@ Proof.
     rewrite E. destruct (att =? -1).
     + injection Aa as <- _. left. reflexivity.
     + destruct (add_attempt_akeys _ _ _ _ _ _ _ _ Aa) as [-> | ->]; [left; reflexivity | right; eauto].
-  - left. unfold do_add_resources. repeat dmatch; cbn [fst]; try reflexivity.
+  - apply L; clear L. unfold do_add_resources. repeat dmatch; cbn [fst]; try reflexivity.
     apply asame_fold. intros; apply asame_add_one_resource.
-  - left. unfold do_billing_update. cbn [fst]. apply asame_fold. intros st [[b j] a].
+  - apply L; clear L. unfold do_billing_update. cbn [fst]. apply asame_fold. intros st [[b j] a].
     destruct (find_attempt st b j a); [apply asame_update_attempt | reflexivity].
-  - left. reflexivity.
-  - left. reflexivity.
+  - apply L; clear L. reflexivity.
+  - apply L; clear L. reflexivity.
 Qed.
 
 (* ------------------------------------------------------------------ AttInv *)
@@ -181,19 +180,15 @@ Proof.
   destruct (step_akeys s o) as [E | (k & Ek & E)]; rewrite E in Hk; [apply Hold; exact Hk|].
   apply in_app_iff in Hk. destruct Hk as [Hk | [Hk | []]]; [apply Hold; exact Hk|].
   subst k. unfold legal, legalb in L.
-  destruct o; cbn [op_att] in Ek; try discriminate; injection Ek as <- <- <-; cbn [ak fst snd] in *;
+  destruct o; cbn [op_att] in Ek; try discriminate; unfold ak in Ek; injection Ek as E1 E2 _; rewrite <- E1, <- E2;
     apply job_committed_step; try exact K;
     repeat (apply andb_true_iff in L; destruct L as [L ?]); assumption.
 Qed.
 
 Lemma AttInv_reachable ops : good_history ops -> AttInv (run ops).
 Proof.
-  intros G. unfold good_history, run in *.
-  assert (H : forall s, DInv s -> DAux s -> AttInv s -> good_from s ops -> AttInv (fold_left (fun s o => fst (step s o)) ops s)).
-  { induction ops as [|o r IH]; intros s D A At Gf; cbn [fold_left good_from] in *; [exact At|].
-    destruct Gf as [Go Gr]. apply IH; [apply DInv_step; assumption | apply DAux_step; exact A | | exact Gr].
-    apply AttInv_step; [apply (d_jkeys _ D) | apply Go | exact At]. }
-  apply H; [apply DInv_init | apply DAux_init | apply AttInv_init | exact G].
+  apply (good_invariant AttInv); [apply AttInv_init|].
+  intros s o D A At Go. apply AttInv_step; [apply (d_jkeys _ D) | apply Go | exact At].
 Qed.
 
 (* ------------------------------------------------------------------ Sim *)
@@ -205,7 +200,6 @@ Section Sim.
     sm_G0 : 0 < G0;
     sm_up : exists up, find_update s B U = Some up /\ u_committed up = false /\ u_start_job up = sj;
     sm_others : forall x, In x (updates s) -> u_batch x = B -> u_id x <> U -> u_committed x = true /\ u_id x < U;
-    sm_groups : forall gr, In gr (groups s) -> g_batch gr = B -> G0 <= g_id gr -> g_update gr = Some U;
     sm_jgroup : forall x, In x (jobs s) -> j_batch x = B -> j_update x <> U -> j_group x < G0 }.
 
   (** in phase 2 the jobs of B with id >= sj are exactly the jobs of update U *)
@@ -229,7 +223,7 @@ Section Sim.
     destruct (find_job_static_key _ _ _ _ F) as (Hb & Hj).
     rewrite find_job_eq in F. pose proof (find_jkey_sound _ _ _ _ F) as (Hx & _).
     unfold jfree, gfree, ufree. destruct (b =? B) eqn:Eb; cbn [andb]; [|split; [reflexivity|]; exists x; rewrite Hb, Eb; auto].
-    apply Z.eqb_eq in Eb. subst b.
+    apply Z.eqb_eq in Eb. rewrite Eb in *. clear Eb.
     assert (Nu : j_update x <> U).
     { intros E. rewrite E in C. unfold committed in C. destruct (sm_up _ S) as (up & Fu & Cu & _). rewrite Fu, Cu in C. discriminate. }
     pose proof (sim_job_range s x D S Hx Hb) as R.
